@@ -237,7 +237,7 @@ fn run_class(class: &str, big: bool) -> ClassResult {
 
 /// (id, gate, items, main body, expected stdout)
 const DIRECTED: [(&str, &str, &str, &str, &str); 26] = [
-    ("dyn-method-keyword", "", "trait Sh { fn range(Self) -> int32; fn len(Self) -> int32; }\nstruct Q { a: int32 }\nimpl Sh for Q { fn range(self: Q) -> int32 { self.a } fn len(self: Q) -> int32 { self.a + 1 } }\nfn through(d: dyn Sh) -> int32 { Sh::range(d) + Sh::len(d) }", "let _ = string_println(int32_to_string(through(Q { a: 3 })));", "7\n"),
+    ("dyn-method-keyword", "", "trait Sh { fn range(Self) -> int32; fn len(Self) -> int32; }\nstruct Q { a: int32 }\nimpl Sh for Q { fn range(self: Q) -> int32 { self.a } fn len(self: Q) -> int32 { self.a + 1 } }\nfn through(d: dyn Sh) -> int32 { Sh::range(d) + Sh::len(d) }", "let q = Q { a: 3 }; let _ = string_println(int32_to_string(through(q)));", "7\n"),
     ("inherent-method-keyword", "", "struct Q { a: int32 }\nimpl Q { fn select(self: Q) -> int32 { self.a } fn init(self: Q) -> int32 { self.a * 2 } }", "let q = Q { a: 3 }; let _ = string_println(int32_to_string(q.select() + Q::init(q)));", "9\n"),
     ("fn-len", "", "fn len(x: int32) -> int32 { x + 100 }", "let _ = string_println(int32_to_string(len(1) + string_len(\"abc\")));", "104\n"),
     ("fn-append", "", "fn append(x: int32, y: int32) -> int32 { x + y }", "let v: Vec[int32] = vec_new(); let v = vec_push(v, append(1, 2)); let _ = string_println(int32_to_string(vec_get(v, 0)));", "3\n"),
